@@ -121,7 +121,9 @@ CHECKS = {
             "the controlled scheduler (dfs with preemption bound + random); TraceCC.tla decides linearizability by tracking the set of abstract "
             "configurations consistent with the recorded begin/end history (results, at-most-once removal, final order) and the visit rules of "
             "concurrent traversals; deadlock (stuck) and unlocked structural accesses have no step in the specification. The same scenarios also run "
-            "uncontrolled with the shipped std::mutex / SpinLock under ThreadSanitizer (stress mode), judged by the same TraceCC.tla.",
+            "uncontrolled with the shipped std::mutex / SpinLock under ThreadSanitizer (stress mode), judged by the same TraceCC.tla. Scenarios are the "
+            "hand-written regression list plus a seeded sample of ConcCLMC's own scenario sets; HeterCallbackList and HeterEventDispatcher run under the "
+            "same scheduler and specification at the level of their policy mutexes (lazily created per-prototype lists raced for from an empty object).",
             "TLA+ model checking (TLC) + systematic schedule exploration of the real code + TLC trace validation (configuration-set linearizability)"),
     "C06": (MC, "7/C06", "conc",
             "ConcQueue.tla (threads x micro-steps of eventqueue.h, ghost event ledger) is model-checked by TLC over all interleavings of the scenario "
@@ -129,7 +131,9 @@ CHECKS = {
             "variable (GeneralThreading policy) with depth-first schedule enumeration up to a preemption bound plus seeded random schedules; TLC "
             "validates every recorded API history against TraceCQ.tla (no event twice, none lost after drain, payload intact, per-producer order, "
             "no deadlock, no unlocked structural access). A stress mode runs the scenarios with the shipped std::mutex / condition_variable under "
-            "ThreadSanitizer and validates those histories with the same specification. HeterEventQueue (its own copy of the queue logic) runs every "
+            "ThreadSanitizer and validates those histories with the same specification. ConcSlots.tla models the slot protocol underneath (queueList / "
+            "freeList / private lists, double-checked pops, clear before recycle, which mutex guards which list) with four plausible defects that TLC must "
+            "catch; scenarios = regression list + seeded sample of ConcQueueMC's scenario sets. HeterEventQueue (its own copy of the queue logic) runs every "
             "scenario whose operations it has under the same controlled scheduler and the same specification.",
             "TLA+ model checking (TLC) of the interleaving model + systematic schedule exploration of the real code + TLC trace validation"),
     "C07": (MC, "7/C07", "conc",
